@@ -1,9 +1,83 @@
 import PyamgV.Driver.Util
-/-! Driver ops of extension task E15 (op names prefixed `ext_`). -/
+import PyamgV.Driver.Relax
+import PyamgV.Model.ExtC09Block
+/-! Driver ops of extension task E15 (property C09): `ext_c09_r_*` run the models of
+Model/ExtC09Block.lean on `Rat`, `ext_c09_c_*` on Gaussian rationals `CRat`.
+Matrices: `fmt n bs ap aj ax` with `fmt = csr` (converted by the model with `toBsr bs` / `toCsc`) or
+`fmt = bsr` / `csc` (arrays used as they are; for `bsr`, `n` = number of block rows). -/
 namespace PyamgV.Drv.ExtE15
-open PyamgV PyamgV.Drv
+open PyamgV PyamgV.K PyamgV.Drv
+
+structure Sc (α : Type) where
+  parse : String → Array α
+  parse1 : String → α
+  shw : Array α → String
+  conj : α → α
+
+def scR : Sc Rat := ⟨parseRats, parseRat, showRats, id⟩
+def scC : Sc CRat := ⟨parseCRats, parseCRat, showCRats, CRat.conj⟩
+
+section
+variable {α : Type} [Add α] [Sub α] [Mul α] [Div α] [OfNat α 0] [OfNat α 1] [DecidableEq α]
+
+def mkCsr (S : Sc α) (n ap aj ax : String) : Csr α := ⟨nat n, parseNats ap, parseNats aj, S.parse ax⟩
+
+def mkBsr (S : Sc α) (fmt n bs ap aj ax : String) : Option (Bsr α) :=
+  if fmt = "bsr" then some ⟨nat n, nat bs, parseNats ap, parseNats aj, S.parse ax⟩
+  else (mkCsr S n ap aj ax).toBsr (nat bs)
+
+def optArr (S : Sc α) (s : String) : Option (Array α) := if s = "none" then none else some (S.parse s)
+
+def showO (S : Sc α) : Option (Array α) → String
+  | none => "reject"
+  | some a => S.shw a
+
+def handleG (S : Sc α) : List String → Option String
+  | ["tobsr", n, bs, ap, aj, ax] =>
+    some <| match (mkCsr S n ap aj ax).toBsr (nat bs) with
+      | none => "reject"
+      | some B => s!"{B.nb};{showNats B.bp};{showNats B.bj};{S.shw B.bx}"
+  | ["tocsc", n, ap, aj, ax] =>
+    let B := (mkCsr S n ap aj ax).toCsc
+    some s!"{showNats B.ap};{showNats B.aj};{S.shw B.ax}"
+  | ["bjac", om, fmt, n, bs, ap, aj, ax, b, x, dinv, iters] =>
+    some <| showO S ((mkBsr S fmt n bs ap aj ax).bind fun A =>
+      pyBlockJacobi (S.parse1 om) A (S.parse b) (S.parse dinv) (nat iters) (S.parse x))
+  | ["bgs", fmt, n, bs, ap, aj, ax, b, x, dinv, iters, sweep] =>
+    some <| showO S ((mkBsr S fmt n bs ap aj ax).bind fun A =>
+      pyBlockGaussSeidel A (S.parse b) (S.parse dinv) (nat iters) (Relax.sweepOf sweep) (S.parse x))
+  | ["bjack", om, nb, bs, ap, aj, ax, b, x, dinv, temp, s0, s1, s2] =>
+    some <| S.shw (blockJacobi (S.parse1 om) ⟨nat nb, nat bs, parseNats ap, parseNats aj, S.parse ax⟩ (S.parse b) (S.parse dinv)
+      (Relax.sw s0 s1 s2) (S.parse temp) (S.parse x))
+  | ["bgsk", nb, bs, ap, aj, ax, b, x, dinv, s0, s1, s2] =>
+    some <| S.shw (blockGaussSeidel ⟨nat nb, nat bs, parseNats ap, parseNats aj, S.parse ax⟩ (S.parse b) (S.parse dinv)
+      (Relax.sw s0 s1 s2) (S.parse x))
+  | ["poly", n, ap, aj, ax, b, x, cs, iters] =>
+    some <| showO S (pyPolynomial (mkCsr S n ap aj ax) (S.parse b) (S.parse cs).toList (nat iters) (S.parse x))
+  | ["jacne", om, n, ap, aj, ax, b, x, iters] =>
+    some <| S.shw (pyJacobiNE S.conj (S.parse1 om) (mkCsr S n ap aj ax) (S.parse b) (nat iters) (S.parse x))
+  | ["gsne", om, n, ap, aj, ax, b, x, dinv, iters, sweep] =>
+    some <| S.shw (pyGaussSeidelNE S.conj (S.parse1 om) (mkCsr S n ap aj ax) (S.parse b) (optArr S dinv) (nat iters)
+      (Relax.sweepOf sweep) (S.parse x))
+  | ["gsnr", om, fmt, n, ap, aj, ax, b, x, dinv, iters, sweep] =>
+    let A0 := mkCsr S n ap aj ax
+    let A := if fmt = "csc" then A0 else A0.toCsc
+    some <| S.shw (pyGaussSeidelNR S.conj (S.parse1 om) A (S.parse b) (optArr S dinv) (nat iters)
+      (Relax.sweepOf sweep) (S.parse x))
+  | ["schwarz", n, ap, aj, ax, b, x, tx, tp, sj, sp, iters, sweep] =>
+    some <| S.shw (pySchwarz (mkCsr S n ap aj ax) (S.parse b) (S.parse tx) (parseNats tp) (parseNats sj) (parseNats sp)
+      (nat iters) (Relax.sweepOf sweep) (S.parse x))
+  | ["schwarzk", n, ap, aj, ax, b, x, tx, tp, sj, sp, s0, s1, s2] =>
+    some <| S.shw (schwarzSweep (mkCsr S n ap aj ax) (S.parse b) (S.parse tx) (parseNats tp) (parseNats sj) (parseNats sp)
+      (Relax.sw s0 s1 s2) (S.parse x))
+  | _ => none
+end
 
 def handle : List String → Option String
+  | op :: args =>
+    if op.startsWith "ext_c09_r_" then handleG scR ((op.drop 10).toString :: args)
+    else if op.startsWith "ext_c09_c_" then handleG scC ((op.drop 10).toString :: args)
+    else none
   | _ => none
 
 end PyamgV.Drv.ExtE15
